@@ -1224,6 +1224,7 @@ class AgProtocol(utils.EventEmitter):
         self.cme_error_enabled = False
         self.cli_notification_enabled = False
         self.call_waiting_enabled = False
+        self._final_result_sent = False
 
         self.hf_indicators = collections.OrderedDict()
 
@@ -1270,7 +1271,16 @@ class AgProtocol(utils.EventEmitter):
                 handler_name = f'_on_{command.code.lower()}'
 
             if handler := getattr(self, handler_name, None):
-                handler(*command.parameters)
+                # Every command must be concluded by exactly one final result
+                # code: if the handler fails (wrong number of parameters, invalid
+                # parameter value) before sending one, answer with ERROR.
+                self._final_result_sent = False
+                try:
+                    handler(*command.parameters)
+                except Exception:
+                    logger.exception(f'Error while handling {handler_name}')
+                    if not self._final_result_sent:
+                        self.send_error()
             else:
                 logger.warning('Handler %s not found', handler_name)
                 self.send_response('ERROR')
@@ -1285,16 +1295,19 @@ class AgProtocol(utils.EventEmitter):
         If CME Error is not enabled by HF, sends ERROR instead.
         """
         if self.cme_error_enabled:
+            self._final_result_sent = True
             self.send_response(f'+CME ERROR: {error_code.value}')
         else:
             self.send_error()
 
     def send_ok(self) -> None:
         """Sends an OK response."""
+        self._final_result_sent = True
         self.send_response('OK')
 
     def send_error(self) -> None:
         """Sends an ERROR response."""
+        self._final_result_sent = True
         self.send_response('ERROR')
 
     def set_inband_ringtone_enabled(self, enabled: bool) -> None:
